@@ -15,7 +15,7 @@ fn optsets() -> Vec<Options> { vec![Options::default(), Options::elisp()] }
 
 fn cases(ob: &str) -> Vec<String> {
     let mut out = vec![];
-    if let Some(seed) = crate::gen::thorough_seed(ob) { for t in crate::gen::texts(seed ^ 11, 400, false) { for oi in 0..2 { out.push(format!("spanx:{}:{}", crate::hex(t.as_bytes()), oi)); } } }
+    if let Some(seed) = crate::gen::thorough_seed(ob) { for t in crate::gen::texts(seed ^ 11, crate::gen::scale(ob, 400), false) { for oi in 0..2 { out.push(format!("spanx:{}:{}", crate::hex(t.as_bytes()), oi)); } } }
     for ci in 0..corpus().len() { for oi in 0..optsets().len() { out.push(format!("span:{}:{}", ci, oi)); } }
     out
 }
